@@ -50,6 +50,16 @@ Theorem C08_subnets_from_string_length : forall n l r,
 Proof. exact subnets_from_chars_length. Qed.
 Print Assumptions C08_subnets_from_string_length.
 
+(* The "domaintype" entry of a peer's node record (finding F12, repaired): short values are an error,
+   not a failing slice-to-array conversion. *)
+Theorem C08_domain_type_entry_total : forall bs, decode_domain_type true bs <> None.
+Proof. exact decode_domain_type_total. Qed.
+Print Assumptions C08_domain_type_entry_total.
+
+Theorem C08_domain_type_entry_unchecked_refuted : decode_domain_type false [1; 2]%N = None.
+Proof. exact decode_domain_type_unchecked_refuted. Qed.
+Print Assumptions C08_domain_type_entry_unchecked_refuted.
+
 (* SharedSubnets on a peer's subnets of any length (finding F9, repaired): no index out of range. *)
 Theorem C08_shared_subnets_total : forall a b ml, shared_subnets true a b ml <> None.
 Proof. exact shared_subnets_total. Qed.
